@@ -412,5 +412,7 @@ fn gen(rng: &mut Rng, tier: Tier) -> Vec<Case> {
 }
 
 fn main() {
-    harness_main(gen, run, Limits::default());
+    // a request takes well under a second; the generous budget only keeps a heavily loaded machine from
+    // turning a slow child into a spurious `timeout` answer (this property is not about termination)
+    harness_main(gen, run, Limits { per_case: std::time::Duration::from_secs(120), ..Limits::default() });
 }
